@@ -157,13 +157,17 @@ fn parse_standard(out: &[u8], c: &Case) -> Result<Vec<Item>, String> {
         pos = want.len();
     }
     while pos < out.len() {
-        if ctx && out[pos..].starts_with(b"--\n") {
+        // (when records carry no prefix at all, a line `--` of the file is
+        // indistinguishable from a separator: then it is left to the body
+        // matcher, which skips what is not a line of the file)
+        let bare = !n && !col && !b && !(with_filename && !heading);
+        if ctx && !bare && out[pos..].starts_with(b"--\n") {
             items.push(Item::Sep);
             pos += 3;
             continue;
         }
         // rg terminates its own separator with the configured terminator
-        if ctx && c.crlf && out[pos..].starts_with(b"--\r\n") {
+        if ctx && !bare && c.crlf && out[pos..].starts_with(b"--\r\n") {
             items.push(Item::Sep);
             pos += 4;
             continue;
@@ -327,6 +331,9 @@ pub fn check(case: &Case) -> Verdict {
         return Verdict::Reject("haystack anchor");
     }
     let input = &case.input.0;
+    if gen::starts_with_bom(input) {
+        return Verdict::Reject("input starts with a byte-order mark (transcoding is C17's subject)");
+    }
     {
         // Known finding recorded under C10 (an empty match at the very end of
         // an unterminated last line is dropped by the printers): with a column
@@ -366,6 +373,9 @@ pub fn check(case: &Case) -> Verdict {
     };
     // whole-input matches (for -U) by the real matcher
     let ml_matches = if case.multiline { super::c13::enumerate_matches(&matcher, input, false) } else { vec![] };
+    if std::env::var_os("VERIF_TRACE_CASES").is_some() {
+        eprintln!("C09 ml_matches={ml_matches:?}");
+    }
     let effective_ml = case.multiline && matcher.non_matching_bytes().map_or(true, |s| !s.contains(b'\n'));
     let mut info = Info::new(false);
     let invalid_utf8 = std::str::from_utf8(input).is_err();
@@ -439,6 +449,9 @@ pub fn check(case: &Case) -> Verdict {
                         pending_sep = true;
                     }
                     Item::Rec(r) => {
+                        if r.lineno.is_none() && r.off.is_none() && r.is_match.is_none() && case.after + case.before > 0 && (r.body == b"--\n" || r.body == b"--\r\n") && find_line(None, None, &r.body, next_from).is_err() {
+                            continue; // a separator in prefix-less output
+                        }
                         // per-match records (--vimgrep) carry the offset of the match, as -o does
                         let idx = match find_line(r.lineno, if vim { None } else { r.off }, &r.body, if vim { next_from.saturating_sub(1) } else { next_from }) {
                             Ok(i) => i,
@@ -512,7 +525,14 @@ pub fn check(case: &Case) -> Verdict {
                                     if first_of_block {
                                         let l = &lines[idx];
                                         if let Some((s, _)) = ml_matches.iter().find(|(s, e)| (*s >= l.start && *s < l.end) || (*s < l.start && *e > l.start)) {
-                                            if *s >= l.start && col != (*s - l.start) as u64 + 1 {
+                                            // The regex engine is not always consistent about the
+                                            // leftmost match when the search starts at different
+                                            // offsets (regex-automata 0.4.7: `(?i)(?:bca)?\n?\S...A` finds
+                                            // 3..5 from offset 0 but 2..9 from offset 2), and the printer
+                                            // re-searches from the start of the block: accept that too.
+                                            let from_block = matcher.find_at(input, l.start).ok().flatten().map(|m| m.start());
+                                            let alt_ok = from_block.map_or(false, |b| b >= l.start && col == (b - l.start) as u64 + 1);
+                                            if *s >= l.start && col != (*s - l.start) as u64 + 1 && !alt_ok {
                                                 return Verdict::Fail(fail(format!(
                                                     "-U: first line of a block (line {}) printed with column {col}, the block's first match starts at column {}",
                                                     idx + 1,
